@@ -4,10 +4,11 @@ import re
 from l4sa import q, panics, tables
 from l4sa.core import AnchorMissing, ShapeUnrecognised, SwitchInfo, strip, deep_strip, walk, show, calls_in, cmp_nf
 from rules import common
+from l4sa.core import TRANSPARENT_CALLS
 
 CLAIMED = True
 TECHNIQUE = "static analysis over type-checked MIR: derive-shape detection of deny_unknown_fields (no __ignore variant + unknown_field calls), default-value provenance, registry cross-check (Deserialize impls vs inserted kinds vs default kinds), kind-tagged section shape, loop-exit analysis of the lossy pipelines, guarded-table extraction of the extension->format->parser tables, field-to-field provenance of RawConfig::{root,loggers}, panic-site inventory of the loading cone"
-LEVEL_TEXT = """Static decision of schema/registry/pipeline clauses (agreement of the three formats with one another and with the programmatic configuration rests on serde and the format crates and is NOT claimed): (K1) the derived Deserialize of the 14 listed config structs denies unknown fields (no __ignore field variant, unknown_field reached from both field visitors); (K2) defaults: additive->true, root level->Debug, policy kind->"compound", encoder kind->"pattern", append->true in both file appender builders and only overridden when the config field is Some, console target->Stdout / tty_only->false, fixed-window base->0, on-start-up min_size->1; (K3) every impl of config::Deserialize is inserted exactly once in Deserializers::default() under its documented kind for the matching trait, the default kinds are registered, and an unregistered kind yields Err; (K4) the kind-tagged sections remove "kind" (and "filters") and pass the remainder on, a missing kind is an error for appender/filter/trigger/roller and the default for policy/encoder; (K5) appenders_lossy's loops only exit by exhaustion, push every error, and a failed filter does not drop its appender; file loading uses build_lossy and handles both error lists; create_raw_config fails on any error and uses strict build; (K6) yaml|yml->Yaml, json->Json, toml->Toml and each variant parses with its crate's from_str; (K7) RawConfig::{root,loggers} map level->level, appenders->appenders, additive->additive, map key->name, each setter applied unconditionally before build (never skipped for some documents); (K8) no un-discharged panic site in the loading cone (inherits the time trigger's known finding D5, since TimeTrigger::new runs at load time). (K11) the refresh_rate visitor implements visit_str only; any other visit_* is a plain hand-over of its argument to it."""
+LEVEL_TEXT = """Static decision of schema/registry/pipeline clauses (agreement of the three formats with one another and with the programmatic configuration rests on serde and the format crates and is NOT claimed): (K1) the derived Deserialize of the 14 listed config structs denies unknown fields (no __ignore field variant, unknown_field reached from both field visitors); (K2) defaults: additive->true, root level->Debug, policy kind->"compound", encoder kind->"pattern", append->true in both file appender builders and only overridden when the config field is Some, console target->Stdout / tty_only->false, fixed-window base->0, on-start-up min_size->1; (K3) every impl of config::Deserialize is inserted exactly once in Deserializers::default() under its documented kind for the matching trait, the default kinds are registered, and an unregistered kind yields Err; (K4) the kind-tagged sections remove "kind" (and "filters") and pass the remainder on, a missing kind is an error for appender/filter/trigger/roller and the default for policy/encoder; (K5) appenders_lossy's loops only exit by exhaustion, push every error, and a failed filter does not drop its appender; file loading uses build_lossy and handles both error lists; create_raw_config fails on any error and uses strict build; (K6) yaml|yml->Yaml, json->Json, toml->Toml and each variant parses with its crate's from_str; (K7) RawConfig::{root,loggers} map level->level, appenders->appenders, additive->additive, map key->name, each setter applied unconditionally before build (never skipped for some documents); (K8) no un-discharged panic site in the loading cone (inherits the time trigger's known finding D5, since TimeTrigger::new runs at load time). (K11) the refresh_rate visitor implements visit_str only; any other visit_* is a plain hand-over of its argument to it. (K5, cont.) the strict loader tests the appender error list as returned (no &mut use before is_empty); (K12) retention of the lossy build (C13.V2); (K13a-d) size/time/on-start-up trigger and roller window reach their components as configured; (K14) the type-erasing wrapper passes a section to deserialize_into untouched; (K2, cont.) an optional setter's result is the builder that is built."""
 LEVEL_NOTE = "Trusted: rustc MIR/callee resolution; serde derive semantics for the generated shapes; serde_yaml/serde_json/toml; typemap. cfg-disabled formats report a FormatError and are checked as such."
 EXPLANATION = """Decided: K1 deny-unknown shapes (14 structs), K2 defaults, K3 registry, K4 kind-tagged sections, K5 lossy/strict pipelines, K6 format tables, K7 field mapping, K8 loading does not panic (D5 sites reported as known findings under C16). Undecided: cross-format equivalence and equivalence with the programmatic configuration."""
 DECIDED = ["K1", "K2", "K3", "K4", "K5", "K6", "K7", "K8", "K5b a fresh filter list per appender", "K9 keys a document leaves out stand for the documented defaults (root level debug, additive true, empty lists)"]
@@ -147,6 +148,28 @@ def rule_whole_document_parsers(r, p):
     for c in g.calls():
         if (c.callee or "").endswith("::from_str"):
             r.require(deep_strip(c.arg(0)) == ("param", 2), "parses-the-source:%s" % common.role(c), fn=g, detail="parser input is the source text")
+
+
+def rule_section_passed_whole(ctx, p, cfg, rid="K14"):
+    """Unknown keys can only be refused by the component's own `deny_unknown_fields` visitor if the section reaches it as it was
+    written: the type-erasing wrapper every component section goes through hands `deserialize_into` the value it was given -
+    nothing removed, renamed or defaulted on the way - and the typed configuration it gets back to the component's deserializer."""
+    with ctx.rule(rid, "a component section reaches its visitor as written", cfg) as r:
+        fs = [f for path, f in p.fns.items() if "DeserializeEraser" in path and path.endswith("::deserialize") and "ErasedDeserialize" in path]
+        if len(fs) != 1:
+            raise AnchorMissing("the type-erasing Deserialize wrapper was not found (%d candidates)" % len(fs))
+        f = fs[0]
+        di = [c for c in f.calls() if (c.callee or "").endswith("Value::deserialize_into")]
+        r.require(len(di) == 1 and deep_strip(di[0].arg(0)) == ("param", 2), "section-deserialised-as-given", fn=f, site=(di[0].at if di else None),
+                  detail="deserialize_into(config) on the parameter itself",
+                  fail_detail="the section handed to deserialize_into is %s, not the value that was written: keys can be dropped or changed before the deny_unknown_fields visitor sees them" % (
+                      [show(c.arg(0), 5) for c in di]))
+        inner = [c for c in f.calls("config::raw::Deserialize::deserialize")]
+        okp = len(inner) == 1 and len(di) == 1 and any(x[0] == "call" and len(x) > 3 and x[3] == di[0].block for x in walk(inner[0].arg(1))) and deep_strip(inner[0].arg(2)) == ("param", 3)
+        r.require(okp, "typed-config-handed-to-the-component", fn=f, detail="the component's deserializer gets the typed configuration and the registry")
+        mine = {c.block for c in di} | {c.block for c in inner}
+        others = [c.callee for c in f.calls() if c.block not in mine and not (c.callee or "").endswith(("Try::branch", "from_residual")) and (c.callee or "") not in TRANSPARENT_CALLS]
+        r.require(not others, "nothing-else-touches-the-section", fn=f, detail="other calls in the wrapper: %s" % others)
 
 
 def rule_raw_to_runtime(ctx, p, cfg, rid="K7"):
@@ -467,6 +490,17 @@ def run_cfg(ctx, p, cfg):
         rule_whole_document_parsers(r, p)
 
     rule_raw_to_runtime(ctx, p, cfg, "K7")
+    rule_section_passed_whole(ctx, p, cfg, "K14")
+    from rules import c13
+    c13.rule_retention(ctx, p, cfg, "K12")   # what the lossy loader keeps of a partly broken document (C13.V2 re-evaluated)
+    if "size_trigger" in feats:
+        common.rule_config_reaches_component(ctx, p, cfg, "K13a", "SizeTriggerDeserializer", "SizeTrigger::new", stored={"limit": 1})
+    if "time_trigger" in feats:
+        common.rule_config_reaches_component(ctx, p, cfg, "K13b", "TimeTriggerDeserializer", "TimeTrigger::new", stored={"config": 1})
+    if "onstartup_trigger" in feats:
+        common.rule_config_reaches_component(ctx, p, cfg, "K13c", "OnStartUpTriggerDeserializer", "OnStartUpTrigger::new", stored={"min_size": 1})
+    if "fixed_window_roller" in feats:
+        rule_roller_window_from_document(ctx, p, cfg, "K13d")
     common.rule_visitor_entry_points(ctx, p, cfg, "K11", "config::raw::de_duration::", ("visit_str",), "refresh_rate")     # refresh_rate is a humantime string in every format: a bare number has no unit
 
     with ctx.rule("K8", "loading does not panic", cfg) as r:
